@@ -286,9 +286,11 @@ where
                 //    ValueEntries.
                 // 2. This method will set the dirty flag to prevent this new
                 //    ValueEntry from being evicted by an expiration policy.
-                // 3. This method will update the policy_weight with the new weight.
+                // 3. The policy_weight in the EntryInfo is left as is. It is the weight
+                //    currently counted in the weighted size, and will be updated when
+                //    the write op is applied.
                 let old_weight = entry.policy_weight();
-                *entry = self.new_value_entry_from(value.clone(), ts, weight, entry);
+                *entry = self.new_value_entry_from(value.clone(), ts, entry);
                 update_op = Some(WriteOp::Upsert {
                     key_hash: KeyHash::new(Arc::clone(&key), hash),
                     value_entry: TrioArc::clone(entry),
@@ -331,7 +333,6 @@ where
         &self,
         value: V,
         timestamp: Instant,
-        policy_weight: u32,
         other: &ValueEntry<K, V>,
     ) -> TrioArc<ValueEntry<K, V>> {
         let info = TrioArc::clone(other.entry_info());
@@ -340,7 +341,6 @@ where
         info.set_dirty(true);
         info.set_last_accessed(timestamp);
         info.set_last_modified(timestamp);
-        info.set_policy_weight(policy_weight);
         TrioArc::new(ValueEntry::new(value, info))
     }
 
@@ -847,7 +847,7 @@ where
         &self,
         kh: KeyHash<K>,
         entry: TrioArc<ValueEntry<K, V>>,
-        old_weight: u32,
+        _old_weight: u32,
         new_weight: u32,
         deqs: &mut Deques<K>,
         freq: &FrequencySketch,
@@ -865,8 +865,12 @@ where
                 new_weight as u64,
             );
             // The entry has been already admitted, so treat this as an update.
-            counters.saturating_sub(0, old_weight);
+            // Replace the weight that is currently counted for this entry. (It can be
+            // different from the `old_weight` of this op when ops for the same key
+            // were reordered or when the entry was removed in between.)
+            counters.saturating_sub(0, entry.policy_weight());
             counters.saturating_add(0, new_weight);
+            entry.entry_info().set_policy_weight(new_weight);
             deqs.move_to_back_ao(&entry);
             deqs.move_to_back_wo(&entry);
             return;
@@ -1059,6 +1063,7 @@ where
     ) {
         let key = Arc::clone(&kh.key);
         counters.saturating_add(1, policy_weight);
+        entry.entry_info().set_policy_weight(policy_weight);
         deqs.push_back_ao(
             CacheRegion::MainProbation,
             KeyHashDate::new(kh, entry.entry_info()),
